@@ -63,7 +63,7 @@ ReqOK(s, o) ==
         /\ IF E # {}
            THEN LET a == s[CHOOSE i \in E : \A j \in E : i <= j] IN       \* the first early response, unchanged
                 /\ o.early
-                /\ N = EarlyNames
+                /\ N \subseteq EarlyNames            \* (a variable left out reads as status -1 / empty body / no headers)
                 /\ o.st = a.st /\ o.body = a.b /\ Pairs(o.rh) = Pairs(a.h)
            ELSE IF nz = <<>>
            THEN \* all no-ops: a no-op (or a request modification that edits nothing)
